@@ -81,7 +81,7 @@ PROPS = {
             "text": "Lean 4 theorems over a model of bscript/script.go in which every Go index expression is an explicit partial lookup whose failure is the run-time panic: no inspection query (ScriptType, IsP2PK, IsMultiSigOut, IsP2PKHInscription, PublicKeyHash, ParseInscription) panics for any byte string; a script is typed P2PKH iff it is exactly the 25-byte template; typed data only with the OP_RETURN / OP_FALSE OP_RETURN prefix; undecodable scripts are never typed pubkey/multisig/inscription. The model is tied to the code by a differential check (all strings <= 2/3 bytes, every byte mutation / truncation / removal / part replacement incl. zero-length PUSHDATA of each standard template, through every query and json.Marshal(tx.NodeJSON())), whose predicate checks on the implementation's own answers that templates recognised by independent exact recognisers are reported as their type.",
             "note": "Trusted: Lean kernel + standard axioms, harness/generators/comparer, driver glue and the independent template recognisers of the predicate. 'Template instance is reported as its type' for P2PK/multisig/inscription is decided by the correspondence predicate, not yet by a theorem (partial for that clause).",
         },
-        "generators": ["C14"],
+        "generators": ["C14", "FZ14"],
         "gen_obligations": ["index_sites_reviewed_bscript"],
         "thorough_seeds": 2,
         "rule": "all byte strings of length <= 2 (quick) / 3-byte sweep (thorough); instances of the five standard templates and, for each, every single-byte mutation, special-byte substitution, truncation, byte removal and part replacement by zero-length PUSHDATA1/2/4, OP_0, truncated push or nothing; zero-length PUSHDATA forms in every position of short part sequences; 13+-part sequences of empty parts; random strings. Non-trivial = script of >= 2 bytes.",
@@ -133,7 +133,7 @@ PROPS = {
             "note": "Partial for memory: the allocation theorem is about a ghost model of bt.readBytes that is not tied by correspondence; the real allocator is only measured (TotalAlloc <= 64*len + 1 MiB per decode). encoding/json itself is modelled (shapes after decoding), not verified. Trusted: Lean kernel + standard axioms, harness/generators/comparer, driver glue.",
             "technique": "Lean 4 proof over hand-written model + differential correspondence check + measured allocation in isolated child processes",
         },
-        "generators": ["C09"],
+        "generators": ["C09", "FZ09"],
         "thorough_seeds": 1,
         "gen_obligations": ["chunk_matches_source", "index_sites_reviewed_bt"],
         "rule": "every truncation of standard and extended serialisations of seed transactions through NewTxFromStream and a one-byte reader; bit flips (isolated); every truncation of inputs and outputs; crafted prefixes: script lengths, input/output/tx counts and extended previous-script lengths claiming {0xfd, 2^16-1, 2^16, 2^20, 2^31, 2^32-1, 2^32, 2^40, 2^62, 2^63, 2^63+1, 2^64-1} with 0/1/7/64 bytes following, minimal and 9-byte varints, through five entry points; random bytes; node-JSON shapes with absent/null/bad-hex fields; 34 JSON atoms x 2 nestings x 9 JSON entry points. Non-trivial = op on >= 5 bytes of input.",
@@ -252,7 +252,7 @@ PROPS = {
             "text": "The interpreter model is a total Lean function (structural recursion, so termination is kernel-checked) in which every Go run-time check is an explicit panic outcome. Main theorem execute_never_panics: for every crypto oracle, flag set, optional transaction context and pair of scripts, execute ends in accept or reject - no panic site of the model (transaction-requiring opcode without a transaction, element with a non-table length, empty saved stack of P2SH) is reachable; proved from the parser's guarantees (parseAux_Parsed), the invariant that the run-time conditional depth never exceeds the parser's nesting count (executeOpcode_depth, via per-handler lemmas for all opcodes), OP_RETURN at depth 0 ending the script (return_at_top_not_ok) and OP_HASH160 failing on an empty stack. Further theorems: step bound (one snapshot per instruction), shifts total for every operand and count. Tied to the code by a differential check of outcomes {ok, err, panic, crash} over arbitrary byte strings as both scripts, all single flags and flag pairs plus sampled 16-bit flag sets, eight kinds of transaction context (none, valid, tx without previous output, nil tx, nil input element, previous output without script, nothing, locking script only), indices -1 / len / 2^30, with and without a debugger, and memory-limited child processes for count-driven allocations.",
             "note": "The theorem is about the model's panic sites (the Go run-time checks the model makes explicit); that these are all the places the Go code can panic is what the correspondence checks (arbitrary byte strings, crash-isolated). Go run-time failures outside the modelled checks (stack exhaustion, memory exhaustion by OP_NUM2BIN to gigabytes) are exercised, not proved. Option validation before execution (nil tx, nil input, missing scripts) is checked by correspondence only. Trusted: Lean kernel + standard axioms, harness/generators/comparer, driver glue.",
         },
-        "generators": ["C07"],
+        "generators": ["C07", "FZ07"],
         "gen_obligations": ["index_sites_reviewed"],
         "thorough_seeds": 2,
         "rule": "13 hand-picked nasty script pairs x all 136 single flags / flag pairs x 2 contexts; random / grammar-aware / truncated / signature-opcode-bearing scripts x sampled flag sets x 8 context kinds x {valid, -1, len, 2^30} indices x {no debugger, recording debugger}; isolated resource probes (OP_CHECKMULTISIG with key counts up to 2^31-1). Non-trivial = execution that got past option validation with at least one non-empty script.",
